@@ -17,6 +17,7 @@ type Occ struct {
 	B int    `json:"b,omitempty"` // binder id (bind/ref/tmpl)
 	K string `json:"k,omitempty"` // binder kind (defun gset macro param let let* flet labels dotimes macrolet)
 	C string `json:"c,omitempty"` // occurrence context
+	Q bool   `json:"q,omitempty"` // written inside a [...] bracket list
 }
 
 type File struct {
@@ -49,6 +50,7 @@ type em struct {
 	b    strings.Builder
 	occ  []Occ
 	last byte
+	br   int // open [ ] depth
 }
 
 func (e *em) sep() {
@@ -63,15 +65,16 @@ func (e *em) w(s string) {
 	e.last = s[len(s)-1]
 }
 func (e *em) open()        { e.sep(); e.w("(") }
-func (e *em) openB()       { e.sep(); e.w("[") }
+func (e *em) openB()       { e.sep(); e.w("["); e.br++ }
 func (e *em) close()       { e.w(")") }
-func (e *em) closeB()      { e.w("]") }
+func (e *em) closeB()      { e.w("]"); e.br-- }
 func (e *em) lit(s string) { e.sep(); e.w(s) }
 func (e *em) quote()       { e.sep(); e.w("'") }
 func (e *em) nl()          { e.w("\n") }
 func (e *em) sym(o Occ) {
 	e.sep()
 	e.w(o.N)
+	o.Q = e.br > 0
 	e.occ = append(e.occ, o)
 }
 
